@@ -96,7 +96,7 @@ Section OneMessage.
 
   (* C02_write_ok: to_write succeeds (the rewritten header is never longer than the original one, so the u16
      length cannot overflow) and emits the storage encoding of amsg_of m *)
-  Lemma write_is_enc : msg_to_write m = Ok (enc_storage (amsg_of m)).
+  Lemma write_is_enc : msg_to_write m = Ok (WOk (enc_storage (amsg_of m))).
   Proof.
     pose proof amsg_of_hs_le as Hle. pose proof amsg_of_hs as Hhs.
     destruct amsg_of_flags as (Fe & Fb & Fc & Fs & Ft).
@@ -106,9 +106,6 @@ Section OneMessage.
     assert (Hisome : is_some (if has_timestamp (m_std m) then Some (m_timestamp m) else None) = ts).
     { unfold ts. destruct (has_timestamp (m_std m)); reflexivity. }
     rewrite Hisome. fold ex.
-    assert (Hpl : trunc 16 (blen (m_payload m)) = blen (m_payload m)).
-    { apply trunc_small. change (2 ^ 16) with 65536. pose proof (hs_bounds (m_std m)). lia. }
-    rewrite Hpl.
     cbn [is_some bind].
     assert (L3 : (if ts then add_chk u16max DLT_MIN_STD_HEADER_SIZE 4 else Ok DLT_MIN_STD_HEADER_SIZE)
                  = Ok (4 + (if ts then 4 else 0))).
@@ -118,11 +115,11 @@ Section OneMessage.
                  = Ok (a_hs (amsg_of m))).
     { rewrite Hhs. destruct ts, ex; reflexivity. }
     rewrite L4. cbn [bind].
-    assert (L5 : add_chk u16max (a_hs (amsg_of m)) (blen (m_payload m)) = Ok (a_len (amsg_of m))).
-    { unfold add_chk, a_len, u16max. cbn [a_payload amsg_of].
-      destruct (N.leb_spec (a_hs (amsg_of m) + blen (m_payload m)) 65535); [reflexivity|lia]. }
+    change (a_hs (amsg_of m) + blen (m_payload m)) with (a_len (amsg_of m)).
+    assert (L5 : u16max <? a_len (amsg_of m) = false).
+    { unfold a_len, u16max. cbn [a_payload amsg_of]. apply N.ltb_ge. lia. }
     rewrite L5. cbn [bind].
-    f_equal.
+    f_equal. f_equal.
     unfold enc_storage, storage_to_write, storage_from_msg, enc_std, enc_opt. cbn [sh_secs sh_micros sh_ecu].
     rewrite Fe, Fc, Fs, Ft. cbn [a_secs a_micros a_secu a_htyp a_mcnt a_ts a_payload amsg_of app].
     unfold US_PER_SEC. rewrite Ed, Em.
@@ -186,7 +183,7 @@ End OneMessage.
 (* C02_parse_write_fields, parsing part: the written bytes, followed by nothing / fewer than 4 bytes / the next
    message's marker, are consumed exactly and give [reparsed] *)
 Theorem parse_write m idx bytes rest :
-  wf_msg m -> msg_to_write m = Ok bytes ->
+  wf_msg m -> msg_to_write m = Ok (WOk bytes) ->
   blen rest < 4 \/ is_storage_pat rest = true ->
   parse_storage idx (bytes ++ rest) = PMsg (blen bytes) (reparsed idx m).
 Proof.
@@ -196,7 +193,7 @@ Proof.
 Qed.
 
 Theorem write_normal_form m idx bytes :
-  wf_msg m -> msg_to_write m = Ok bytes -> msg_to_write (reparsed idx m) = Ok bytes.
+  wf_msg m -> msg_to_write m = Ok (WOk bytes) -> msg_to_write (reparsed idx m) = Ok (WOk bytes).
 Proof.
   intros Hwf Hw. rewrite (write_is_enc _ (reparsed_wf m Hwf idx)), (amsg_of_reparsed m Hwf idx).
   rewrite <- Hw. symmetry. apply write_is_enc; exact Hwf.
@@ -280,7 +277,7 @@ Qed.
 Definition segs_of (ms : list msg) : list seg := map (fun m => ([], amsg_of m)) ms.
 Definition reparsed_list (start : N) (ms : list msg) : list msg := expect_list Storage start (segs_of ms).
 
-Lemma write_all_stream ms : Forall wf_msg ms -> write_all ms = Ok (stream Storage (segs_of ms) []).
+Lemma write_all_stream ms : Forall wf_msg ms -> write_all ms = Ok (WOk (stream Storage (segs_of ms) [])).
 Proof.
   induction 1 as [|m r Hm Hr IH]; cbn [write_all segs_of map stream]; [reflexivity|].
   rewrite (write_is_enc m Hm). cbn [bind]. fold (segs_of r). rewrite IH. cbn [bind app enc]. reflexivity.
@@ -328,11 +325,11 @@ Qed.
 Theorem export_roundtrip start ms :
   Forall wf_msg ms -> start + N.of_nat (length ms) <= u32max ->
   exists bytes st,
-    write_all ms = Ok bytes /\
+    write_all ms = Ok (WOk bytes) /\
     run_iter start bytes = Ok (reparsed_list start ms, st, []) /\
     Forall2 same_fields ms (reparsed_list start ms) /\
     i_skipped st = 0 /\ i_processed st = blen bytes /\ i_index st = start + N.of_nat (length ms) /\
-    write_all (reparsed_list start ms) = Ok bytes.
+    write_all (reparsed_list start ms) = Ok (WOk bytes).
 Proof.
   intros Hwf Hidx.
   exists (stream Storage (segs_of ms) []).
